@@ -5,7 +5,7 @@
    No theorem needs the normal to have unit length: they hold for every plane the constructor accepts. *)
 From Coq Require Import ZArith Reals Lra List Bool Sorted.
 From PW Require Import Num NumR Vec NpList.
-From PW.model Require Import M_plane M_polyline_base M_plane_xsect.
+From PW.model Require Import M_plane M_polyline_base M_plane_xsect M_plane_xsect_spec.
 From PW.proofs Require Import P_plane_xsect.
 Import ListNotations.
 Local Open Scope R_scope.
@@ -32,6 +32,17 @@ Proof. exact four_routines_agree. Qed.
 Theorem C14_intersect_plane_is_edgewise : forall pl poly, Forall (off_plane pl) (pv poly) ->
   intersect_plane_hits ROps pl poly = edgewise_from pl 0 (segments poly).
 Proof. exact intersect_plane_edgewise. Qed.
+(* the same, directly in the property's words: with no vertex on the plane the report is exactly the list of
+   (edge index, crossing point) of the edges whose ends are strictly on opposite sides, in order *)
+Theorem C14_intersect_plane_reports_crossings : forall pl poly, Forall (off_plane pl) (pv poly) ->
+  intersect_plane_hits ROps pl poly = crossings_from pl 0 (segments poly).
+Proof. exact intersect_plane_crossings. Qed.
+(* per edge, for EVERY polyline (other vertices may lie on the plane): a strictly crossing edge k is reported with index k
+   and its crossing point; an edge with both ends strictly on the same side is not reported *)
+Theorem C14_intersect_plane_per_edge : forall pl poly k a b, nth_error (segments poly) k = Some (a, b) ->
+  (sd pl a * sd pl b < 0 -> In (k, Some (crossing pl a b)) (intersect_plane_hits ROps pl poly)) /\
+  (0 < sd pl a * sd pl b -> forall r, ~ In (k, r) (intersect_plane_hits ROps pl poly)).
+Proof. exact intersect_plane_per_edge. Qed.
 (* for every input: edge indices strictly ascend, each names a selected edge and carries that edge's point *)
 Theorem C14_intersect_plane_indices : forall pl poly,
   StronglySorted lt (snd (intersect_plane ROps pl poly)) /\
@@ -93,7 +104,22 @@ Example C14_crossing_inhabited :
   sd pl (V3 4 0 5) * sd pl (V3 (-2) 3 1) < 0.
 Proof. cbv [plane_sd sd_eq plane_equation eq_normal ea eb ec ed pref pnormal vdot vx vy vz]; rops. lra. Qed.
 
+(* non-vacuity of the other hypotheses, same tilted plane: same side; exactly one endpoint on the plane; a line that is
+   not parallel and one that is; a three-vertex polyline with no vertex on the plane *)
+Example C14_other_hypotheses_inhabited :
+  let pl := MkPlane (V3 1 2 3) (V3 (2/3) (-1/3) (2/3)) in
+  0 < sd pl (V3 4 0 5) * sd pl (V3 5 1 7) /\
+  (sd pl (V3 1 2 3) = 0 /\ sd pl (V3 4 0 5) <> 0) /\
+  xs_denom ROps pl (V3 1 2 (-1)) <> 0 /\ xs_denom ROps pl (V3 1 2 0) = 0 /\
+  Forall (off_plane pl) [V3 4 0 5; V3 (-2) 3 1; V3 (-3) 1 0].
+Proof.
+  cbv zeta. unfold off_plane, xs_denom.
+  cbv [plane_sd sd_eq plane_equation eq_normal ea eb ec ed pref pnormal vdot vx vy vz]; rops.
+  repeat split; try lra. repeat constructor; lra.
+Qed.
+
 Definition C14_all := (C14_crossing_point_unique, C14_four_routines_agree, C14_intersect_plane_is_edgewise,
+  C14_intersect_plane_reports_crossings, C14_intersect_plane_per_edge,
   C14_intersect_plane_indices, C14_same_side_reports_none, C14_endpoint_on_plane_returns_it,
   C14_line_xsection_unique_or_none, C14_stacked_is_rowwise).
 Print Assumptions C14_all.
